@@ -19,6 +19,12 @@ TEXT = {
               "Each generated softfork-heavy program is run on the extension-aware dialect and on a harness dialect that hides extensions and the 4-byte secp opcodes; aware successes must be reproduced with identical result, cost and allocator counts."),
     "C11": _t("differential runtime monitor (F vs F|NEW_COST_MODEL) on programs and direct operator calls",
               "Programs and single operator calls are executed under both cost models; whenever both succeed the result trees must be identical."),
+    "C12": _t("reference-model monitor compared after every allocator operation (release + debug-assertion builds, Miri in thorough)",
+              "Random allocator histories are executed on the real Allocator while an independent accounting model predicts atom_count/pair_count/heap_size after every single operation."),
+    "C13": _t("lock-step limited/unlimited allocator monitor + exact headroom sweeps for programs and decoders",
+              "The same history runs on a nearly-full allocator and an unlimited twin; per-operation success/failure, error kind, cap invariant and no-change-on-failure are asserted; programs and back-reference decoders are swept over every headroom value around their need."),
+    "C14": _t("content-model monitor over allocator histories + exhaustive enumeration of short byte strings and integer ranges",
+              "All live nodes are re-read after every restore/failed op; atom_eq, small_number, number and the four integer constructors are checked against independent encoders, exhaustively for short inputs."),
     "C25": _t("totality monitor (catch_unwind, InternalError detector) under release, debug-assertion, AddressSanitizer and Miri builds",
               "Hostile programs and arbitrary operator argument trees are executed under four build variants; any panic, abort, sanitizer report, dying process or InternalError is a violation.",
               "Trusted: harness generators. ASan/Miri cannot see into blst (C/asm); Miri runs a small no-BLS subset. Hangs are inconclusive."),
